@@ -267,6 +267,8 @@ func init() {
 
 // constIndexInvariants: sites whose safety rests on an invariant established elsewhere.
 var constIndexInvariants = map[string]string{
+	"constindex:json.(encoder).encodeTime:[0]":              "h is the last five bytes of what Time.AppendFormat(RFC3339Nano) produced, which ends in Z or ±hh:mm (the Z case is excluded by the switch): the same indexing as time.Time.appendStrictRFC3339",
+	"constindex:json.(encoder).encodeTime:[1]":              "as above",
 	"constindex:json.(decoder).decodeFromStringToInt:[0]":   "reached only when hasLeadingZeroes(v) returned true, which requires at least two bytes",
 	"constindex:json.(decoder).decodeFromStringToInt:[0]#2": "reached only when hasLeadingZeroes(v) returned true, which requires at least two bytes",
 	"constindex:json.(decoder).decodeInterface:[0]":         "v is the value returned by a successful parseValue: at least one byte",
